@@ -12,6 +12,7 @@ import LlirModel.Drv.Core2Ops
 import LlirModel.Drv.Core3Ops
 import LlirModel.Drv.HistOps
 import LlirModel.Drv.FloatOps
+import LlirModel.Drv.MetaOps
 open Llir Llir.Drv
 
 def dispatch (op : String) (args : List String) : String :=
@@ -55,6 +56,9 @@ def dispatch (op : String) (args : List String) : String :=
   | some r => r
   | none =>
   match floatOps op args with
+  | some r => r
+  | none =>
+  match metaOps op args with
   | some r => r
   | none => "unknown-op"
 
